@@ -1,4 +1,4 @@
-(* <hex-source> -> ERR | FUEL | OK <node> <node> ...   ;   M <hex-source> -> MIN <least fuel> <fuel used> <chars>
+(* <hex-source> -> ERR | FUEL | OK <node> <node> ...   ;   M <hex-source> -> MIN <least fuel> <fuel used> <chars>   ;   E <hex-source> -> OK <dump> | ERR s:e | ERRX c | FUEL (first error located)
       the canonical AST dump of harness/src/bin/astdump.rs, from the model *)
 let text_str (t : n list) = String.concat "" (List.map (fun c -> let c = int_of_n c in
   if c < 128 && c <> 92 && c <> 10 && c <> 9 && c <> 13 && c <> 0 then String.make 1 (Char.chr c) else Printf.sprintf "\\u{%x}" c) t)
@@ -65,6 +65,15 @@ let () = iter_lines (fun line ->
   if String.length line >= 2 && String.sub line 0 2 = "M " then begin
     let t = text_of_hex (String.sub line 2 (String.length line - 2)) in
     Printf.printf "MIN %d %d %d\n" (min_fuel t) (int_of_nat (file_fuel t)) (List.length t)
+  end else
+  if String.length line >= 2 && String.sub line 0 2 = "E " then begin
+    (* located first error (Model/AsmFields.v): OK <dump> | ERR s:e | ERRX c | FUEL *)
+    let t = text_of_hex (String.sub line 2 (String.length line - 2)) in
+    match fparse_file t with
+    | FOk (ns, _) -> print_endline ("OK" ^ cat node ns)
+    | FErr s -> print_endline ("ERR " ^ sp s)
+    | FErrExpr c -> Printf.printf "ERRX %d\n" (int_of_n c)
+    | FFuel -> print_endline "FUEL"
   end else
   let t = text_of_hex line in
   try
